@@ -219,7 +219,7 @@ let () =
           let ic = { i_msop_port = z_of_int (int_of_string msop); i_difop_port = z_of_int (int_of_string difop); i_vlan = bool_of vlan;
                      i_user = c.c_user; i_tail = c.c_tail } in
           pend.inputs <- (i, (int_of_string mode, ic, bool_of repeat)) :: pend.inputs;
-          do_event (ESetInput (z_of_int i, z_of_int (int_of_string mode), ic))
+          do_event (ESetInput (z_of_int i, z_of_int (if int_of_string mode = 4 then 2 else int_of_string mode), ic))
         | "F" :: i :: len :: rest ->
           let data = match rest with [h] -> bytes_of_hex h | _ -> [] in
           pend.queued <- (int_of_string i, EFrame (z_of_int (int_of_string i), { pf_len = z_of_int (int_of_string len); pf_data = data })) :: pend.queued
@@ -239,7 +239,7 @@ let () =
           let evs = List.rev (List.filter_map (fun (j, e) -> if j = i then Some e else None) pend.queued) in
           pend.queued <- List.filter (fun (j, _) -> j <> i) pend.queued;
           List.iter do_event evs;
-          if mode <> 2 then begin
+          if mode <> 2 && mode <> 4 then begin
             if repeat then begin
               pr "ierr %d 1\n" i; List.iter do_event evs; pr "ierr %d 1\n" i
             end else do_event (EEof (z_of_int i))
